@@ -83,11 +83,48 @@ def run(repo: Repo, chk: Check) -> None:
     get_key(repo, chk)
     store_key(repo, chk)
     api_discipline(repo, chk)
+    protect_lookup(repo, chk)
     atomic(repo, chk)
     # "each call terminates ... same plaintext": the derivation from whatever covering envelope the cache hands out (C02)
     from .c02 import l2_obligations
 
     l2_obligations(repo, chk)
+
+
+def protect_lookup(repo: Repo, chk: Check) -> None:
+    """_get_protection_gke_from_cache reports a miss (None -> the caller contacts the DC) only when no root key was
+    named or cache._get_key has nothing covering the current position: on every path that returns None, the decisions
+    taken are about those two values and nothing else."""
+    from sa.pathsum import Summary
+
+    f = repo.func("_client._get_protection_gke_from_cache")
+    chk.analysed(f)
+    summ = Summary(f, ["root_key_identifier", "target_sd", "cache"], prune=True)
+    n = 0
+    for ps in summ.returning():
+        v = ps.value
+        if not (v is None or isinstance(v, ast.Constant) and v.value is None):
+            continue
+        n += 1
+        reasons: t.List[str] = []
+        extra: t.List[str] = []
+        for e, pol in ps.atoms():
+            txt = ps.text(e)
+            core = e
+            isnone = False
+            if isinstance(e, ast.Compare) and len(e.ops) == 1 and isinstance(e.comparators[0], ast.Constant) and e.comparators[0].value is None and isinstance(e.ops[0], (ast.Is, ast.IsNot)):
+                core, isnone = e.left, True
+                pol = pol if isinstance(e.ops[0], ast.IsNot) else not pol  # "is present"
+            ctxt = ps.text(core)
+            if ctxt == "root_key_identifier" or (isinstance(core, ast.Call) and ps.text(core.func) == "cache._get_key"):
+                if not pol:
+                    reasons.append(ctxt[:40])
+                continue
+            del isnone
+            extra.append(("" if pol else "not ") + txt[:70])
+        ok = bool(reasons) and not extra
+        chk.ob("O4", Site.of(f, ps.exit_node, None if ps.exit_node is not None else "return None"), ok, f"a miss is reported because {' / '.join(reasons)} is empty" if ok else f"reports a cache miss (-> one more GetKey RPC) depending on {extra or 'nothing the cache said'}: seed keys already obtained for this root key are not consulted")
+    chk.count("protect lookup miss paths", n)
 
 
 def lookup_chain(e: ast.AST) -> t.Optional[t.Tuple[str, t.List[str]]]:
@@ -389,11 +426,17 @@ def api_discipline(repo: Repo, chk: Check) -> None:
         # the value tested is the cache lookup with the same key
         lookups = [d for d in rd.reaching(rkname, c) if d.value is not None]
         lk = lookups[0].value if len(lookups) == 1 else None
+        from .util import args_of
+
+        ra = {k: unparse(v) for k, v in args_of(repo, f, c).items()}
         if kind == "unprotect":
-            oklk = isinstance(lk, ast.Call) and unparse(lk.func) == "cache._get_key" and [unparse(a) for a in lk.args] == [unparse(a) for a in c.args[1:6]]
+            la = {k: unparse(v) for k, v in args_of(repo, f, lk, ["target_sd", "root_key_id", "l0", "l1", "l2"]).items()} if isinstance(lk, ast.Call) else {}
+            names = ["target_sd", "root_key_id", "l0", "l1", "l2"]
+            oklk = isinstance(lk, ast.Call) and unparse(lk.func) == "cache._get_key" and all(n_ in la and la.get(n_) == ra.get(n_) for n_ in names)
             chk.ob("O4", site, bool(oklk), "cache asked for the same (sd, root key, L0, L1, L2) that the RPC would request" if oklk else f"the cache lookup {unparse(lk) if lk is not None else '?'} and the RPC {unparse(c)[:80]} do not name the same key")
         else:
-            oklk = isinstance(lk, ast.Call) and unparse(lk.func) == "_get_protection_gke_from_cache" and len(lk.args) == 3 and unparse(lk.args[0]) == unparse(c.args[2]) and unparse(lk.args[1]) == unparse(c.args[1]) and unparse(lk.args[2]) == "cache"
+            la = {k: unparse(v) for k, v in args_of(repo, f, lk).items()} if isinstance(lk, ast.Call) else {}
+            oklk = isinstance(lk, ast.Call) and unparse(lk.func) == "_get_protection_gke_from_cache" and la.get("root_key_identifier") is not None and la.get("root_key_identifier") == ra.get("root_key_id") and la.get("target_sd") is not None and la.get("target_sd") == ra.get("target_sd") and la.get("cache") == "cache"
             chk.ob("O4", site, bool(oklk), "cache asked first for the named root key and this SD" if oklk else f"protect does not consult the cache for the same root key / SD before the RPC ({unparse(lk) if lk is not None else '?'})")
         # store discipline: every _store_key is guarded by not is_public_key, exactly one, after the RPC branch, with (sd, rk)
         stores = [n for n in body_nodes(f.node) if isinstance(n, ast.Call) and unparse(n.func) == "cache._store_key"]
@@ -408,7 +451,8 @@ def api_discipline(repo: Repo, chk: Check) -> None:
         chk.ob("O4", ss, okp, "only seed-key envelopes are cached" if okp else "_store_key is not guarded by 'not rk.is_public_key': a public-key envelope would be served from the cache to callers who need seed keys")
         inside_miss = any(unparse(e) == rkname and pol is False for e, pol in sg)
         chk.ob("O4", ss, not inside_miss, "stored whichever way the key was obtained" if not inside_miss else "the store only happens on the RPC path")
-        oka = len(s.args) == 2 and unparse(s.args[1]) == rkname and unparse(s.args[0]) == unparse(c.args[1])
+        sa_ = {k: unparse(v) for k, v in args_of(repo, f, s, ["target_sd", "key"]).items()}
+        oka = sa_.get("key") == rkname and sa_.get("target_sd") is not None and sa_.get("target_sd") == ra.get("target_sd")
         chk.ob("O4", ss, oka, "stored under the SD it was requested for" if oka else f"_store_key({', '.join(map(unparse, s.args))})")
         # the key is used after the store
         use = [n for n in body_nodes(f.node) if isinstance(n, ast.Call) and unparse(n.func) in ("_decrypt_blob", "_encrypt_blob")]
